@@ -222,6 +222,21 @@ func VerifC08Decode() {
 	maxIn := verifCase("maxlen")
 	n := verifInt("len", 0, maxIn)
 	in := verifBytes("in", maxIn)[:n]
+	c08CheckDecode(in)
+}
+
+// VerifC08DecodeRepeated: the embedded Details message occurring twice (proto3: occurrences merge field by field);
+// each occurrence holds l1 / l2 arbitrary bytes.
+func VerifC08DecodeRepeated() {
+	l1, l2 := verifCase("l1"), verifCase("l2")
+	d1, d2 := verifBytes("d1", l1), verifBytes("d2", l2)
+	in := append([]byte{0x0a, byte(l1)}, d1...)
+	in = append(in, 0x0a, byte(l2))
+	in = append(in, d2...)
+	c08CheckDecode(in)
+}
+
+func c08CheckDecode(in []byte) {
 	got, err := UnmarshalPayload(in) // panics are implicit obligations
 	r := c08Reference(in)
 	if r.st == c08Skip {
@@ -252,7 +267,7 @@ func VerifC08Decode() {
 }
 
 // c08FieldValue replaces protowire.consumeFieldValueD in the decode unit: identical for the four proto3 wire types,
-// and an arbitrary result (error or any length inside the buffer) for groups, whose recursive skipping is
+// and an error for groups, whose recursive skipping is
 // protowire's business and which the proto3 schema cannot produce (the reference gives those inputs no oracle).
 func c08FieldValue(num protowire.Number, typ protowire.Type, b []byte, depth int) (n int) {
 	switch typ {
@@ -269,9 +284,7 @@ func c08FieldValue(num protowire.Number, typ protowire.Type, b []byte, depth int
 		_, n = protowire.ConsumeBytes(b)
 		return n
 	case protowire.StartGroupType:
-		n = verifInt("group", -4, 64)
-		verifAssume(n <= len(b))
-		return n
+		return -1 // the parse ends with an error at a group; the reference gives inputs with groups no oracle
 	case protowire.EndGroupType:
 		return -3
 	default:
